@@ -1330,7 +1330,14 @@ func (s *Store) RefineUF(roots ...*Term) []*Term {
 		default:
 			continue
 		}
-		out = append(out, s.Eq(t, s.mk(op, t.W, []*Term{t.Args[0], t.Args[1]}, 0, "")))
+		eq := s.mk(OpEq, 0, []*Term{t, s.mk(op, t.W, []*Term{t.Args[0], t.Args[1]}, 0, "")}, 0, "")
+		if op != OpMul {
+			// Go never divides by zero (the path ends in a panic obligation
+			// instead), so an application with a zero divisor is unconstrained;
+			// SMT-LIB's total bvudiv/bvurem must not be imposed on it
+			eq = s.Implies(s.Ne(t.Args[1], s.BV(0, t.W)), eq)
+		}
+		out = append(out, eq)
 	}
 	return out
 }
@@ -1361,10 +1368,10 @@ func (s *Store) LemmasUF(roots ...*Term) []*Term {
 		case strings.HasPrefix(t.Name, "absrems"), strings.HasPrefix(t.Name, "absdivs"):
 		case strings.HasPrefix(t.Name, "absrem"):
 			out = append(out, s.Implies(s.Ne(y, zero), s.mk(OpULt, 0, []*Term{t, y}, 0, "")))
-			out = append(out, s.mk(OpULe, 0, []*Term{t, x}, 0, ""))
+			out = append(out, s.Implies(s.Ne(y, zero), s.mk(OpULe, 0, []*Term{t, x}, 0, "")))
 			out = append(out, s.Implies(s.mk(OpULt, 0, []*Term{x, y}, 0, ""), s.Eq(t, x)))
 		case strings.HasPrefix(t.Name, "absdiv"):
-			out = append(out, s.mk(OpULe, 0, []*Term{t, x}, 0, ""))
+			out = append(out, s.Implies(s.Ne(y, zero), s.mk(OpULe, 0, []*Term{t, x}, 0, "")))
 			out = append(out, s.Implies(s.Eq(y, one), s.Eq(t, x)))
 		case strings.HasPrefix(t.Name, "absmul"):
 			out = append(out, s.Implies(s.Or(s.Eq(x, zero), s.Eq(y, zero)), s.Eq(t, zero)))
